@@ -185,3 +185,107 @@ func (o *Obligation) smt() string {
 func shortName(full string) string {
 	return strings.TrimPrefix(full, repoModule+"/")
 }
+
+// litInfo builds a pseudo FuncInfo for the k-th function literal of fi, whose contract is keyed "<Key>$lit<k>".
+func litInfo(w *World, fi *FuncInfo, k int) (*FuncInfo, *ast.FuncLit) {
+	var found *ast.FuncLit
+	n := 0
+	ast.Inspect(fi.Decl.Body, func(m ast.Node) bool {
+		if fl, ok := m.(*ast.FuncLit); ok {
+			n++
+			if n == k {
+				found = fl
+			}
+		}
+		return true
+	})
+	if found == nil {
+		return nil, nil
+	}
+	key := fmt.Sprintf("%s$lit%d", fi.Key, k)
+	cf := w.Contracts[fi.Pkg.PkgPath]
+	li := &FuncInfo{Pkg: fi.Pkg, Decl: fi.Decl, Obj: fi.Obj, Key: key, CF: cf}
+	if cf != nil {
+		li.Contract = cf.Funcs[key]
+	}
+	return li, found
+}
+
+// genLit generates the obligations of a function literal under contract: its parameters and the variables it
+// captures are arbitrary (plus the requires clauses), its results are result1..n.
+func genLit(w *World, li *FuncInfo, fl *ast.FuncLit) (res *FuncResult) {
+	th := newTheory(w.Externs)
+	fv := &FuncVC{w: w, fi: li, th: th, info: li.Pkg.TypesInfo, counters: map[string]int{}, heapSort: map[string]Sort{},
+		usedExterns: map[string]bool{}, unknownCalls: map[string]bool{}, mode: "full", calledContracts: map[string]bool{},
+		freshRefs: map[string]bool{}, loopDescCount: map[string]int{}}
+	res = &FuncResult{FI: li, Th: th, Mode: "full"}
+	defer func() {
+		if r := recover(); r != nil {
+			if se, ok := r.(specErr); ok {
+				res.Err = "contract error: " + string(se)
+				res.Obls = nil
+				return
+			}
+			panic(r)
+		}
+	}()
+	fv.heapDecl("alloc", arraySort(SRef, SBoolS))
+	st := &State{vars: map[types.Object]Val{}, heaps: map[string]string{}, guard: "true", ghosts: map[string]Val{}}
+	fv.addFactRaw("(not (select " + fv.getHeap(st, "alloc") + " nil))")
+	sig := fv.info.TypeOf(fl).(*types.Signature)
+	fv.curSig = sig
+	for _, f := range fl.Type.Params.List {
+		for _, name := range f.Names {
+			if o, ok := fv.info.Defs[name].(*types.Var); ok {
+				st.vars[o] = fv.havocVal(st, o.Name(), o.Type())
+			}
+		}
+	}
+	for i := 0; i < sig.Results().Len(); i++ {
+		r := sig.Results().At(i)
+		var o types.Object = r
+		if r.Name() == "" || r.Name() == "_" {
+			o = types.NewVar(fl.Pos(), li.Pkg.Types, fmt.Sprintf("result$%d", i+1), r.Type())
+		}
+		fv.resNames = append(fv.resNames, o)
+		st.vars[o] = Val{th.zero(r.Type()), th.sortOf(r.Type()), r.Type()}
+	}
+	fv.installGlobalAxioms(st)
+	fv.entry = st.clone()
+	// captured variables: arbitrary
+	save := li.Contract
+	li.Contract = nil // bindFreeVars would apply the requires before the entry snapshot exists
+	fv.bindFreeVars(fl.Body, st)
+	li.Contract = save
+	fv.entry = st.clone()
+	if li.Contract != nil {
+		for _, c := range li.Contract.Requires {
+			fv.addFact(st, fv.specBool(c.Expr, fv.specScope(st, fv.entry, false)))
+		}
+	}
+	fv.curPos = fl.Pos()
+	if o := fv.oblig(st, "cover", "cover:entry", "precondition satisfiable", "false"); o != nil {
+		o.ExpectSat = true
+	}
+	end := fv.execBlock(fl.Body.List, st)
+	if !end.dead() {
+		fv.curPos = fl.Body.Rbrace
+		fv.finish(end, "end")
+	}
+	res.Obls = fv.obls
+	for _, o := range res.Obls {
+		o.facts = fv.facts[:o.NFacts]
+	}
+	res.Unsupported = fv.unsupported
+	res.Abstracted = fv.abstracted
+	for k := range fv.usedExterns {
+		res.UsedExterns = append(res.UsedExterns, k)
+	}
+	for k := range fv.unknownCalls {
+		res.Unknown = append(res.Unknown, k)
+	}
+	for k := range fv.calledContracts {
+		res.Called = append(res.Called, k)
+	}
+	return res
+}
